@@ -4,6 +4,7 @@ import (
 	"fmt"
 	"strconv"
 	"strings"
+	"sync"
 	"sync/atomic"
 	"testing"
 
@@ -494,9 +495,33 @@ func gridArgs(c Case, yield func(Case) bool) bool {
 	return true
 }
 
+// rules records the generation rule and the trusted base in the evidence.
+func rules() { rulesOnce.Do(rulesDo) }
+
+var rulesOnce sync.Once
+
+func rulesDo() {
+	h.Rule("A (user functions): lambda list shape (0-3 required x 0-2 &optional x &rest x 0-3 &key x 0-2 &aux; each default absent | literal | form | " +
+		"name of an earlier parameter; names from a pool of 11, one of them a global variable; each parameter with probability 1/8 also bound by a let around definition and call) " +
+		"x argument vector of length 0-8 (3/4 structured: positional count inside, below or above the range, then a permutation of a subset of the keys, optionally with an unknown key " +
+		"(also one named like another parameter), a repeated key, a missing value or a non-keyword; 1/4 free draws of integers, symbols, declared and foreign keywords). Every case is called " +
+		"6+n ways: defun+call, funcall 'name, funcall #'name, apply 'name, lambda+funcall, lambda+apply with the list split at every point. Oracle: reference binder written from CLHS 3.4.1 " +
+		"working on the text of the case: exact list of parameter values, or 'must be rejected before the body runs' (vt:mark in the body). Grid: every shape (thorough: every default pattern) x " +
+		"positional count 0..required+optional+2 x a fixed family of keyword tails. Non-trivial A: at least 2 lambda list sections and the call uses a default, supplies keys out of " +
+		"declaration order, or must be rejected. B (built-ins): every function of every linked package x every argument count 0..documented max+2 (min+3 when unbounded; with &key: the positional " +
+		"counts, a keyword without value, then 1, 2 and all documented keys), really called in a child process with a neutral sample per documented argument type; count inside the documented " +
+		"range -> the outcome is not the function's own argument count error; outside -> the outcome is not a normal return. Non-trivial B: count in {min-1, min, max, max+1}. Distinct by the JSON of the case.")
+	h.Assume("the reference binder (harness/c04/binder_test.go, about 150 lines, independent of slip)")
+	h.Assume("vt:mark (Go side trace) shows whether the body ran; results are compared through internal/sx")
+	h.Assume("FuncDoc.Args of a FuncInfo is the function's documented lambda list (it is what describe prints)")
+	h.Assume("part B: a host fault (Go runtime error) on a count outside the documented range counts as 'rejected'; faults are judged by C09")
+	h.Assume("part B: the argument count error family is the one of argcounterror.go ('Too few|many arguments to <name>.'), the generic function variant and the message of Lambda.Call")
+}
+
 func TestA(t *testing.T) {
+	rules()
 	h.RunProp(t, propAGrid, 0)
-	h.RunProp(t, propA, h.N(12000, 250000))
+	h.RunProp(t, propA, h.N(12000, 120000))
 	h.Enumerate(t, propAGrid, func(yield func(Case) bool) {
 		idx := 0
 		gridShapes(h.Thorough(), func(c Case) bool {
